@@ -1375,4 +1375,181 @@ theorem rewriteAll_spec (cfg : Cfg) : ∀ (ms ms' : List Msg) (acc acc' : List I
         simp [hlen]
 
 
+
+/-! ### the runner's scan of the rendered bytes finds exactly the tag pieces -/
+
+theorem digitsVal_snoc (a : Bytes) (d : UInt8) : digitsVal (a ++ [d]) = 10 * digitsVal a + (d.toNat - 48) := by
+  simp [digitsVal, List.foldl_append]
+
+theorem isDigit_of (k : Nat) (h : k < 10) : isDigit (digitByte k) = true ∧ (digitByte k).toNat - 48 = k := by
+  have : k = 0 ∨ k = 1 ∨ k = 2 ∨ k = 3 ∨ k = 4 ∨ k = 5 ∨ k = 6 ∨ k = 7 ∨ k = 8 ∨ k = 9 := by omega
+  rcases this with h | h | h | h | h | h | h | h | h | h <;> subst h <;> decide
+
+theorem decDigits_spec : ∀ (fuel n : Nat), n < fuel →
+    (decDigits fuel n).all isDigit = true ∧ digitsVal (decDigits fuel n) = n ∧ decDigits fuel n ≠ [] := by
+  intro fuel
+  induction fuel with
+  | zero => intro n h; omega
+  | succ fuel ih =>
+    intro n h
+    unfold decDigits
+    split
+    · rename_i hn
+      obtain ⟨h1, h2⟩ := isDigit_of n hn
+      refine ⟨by rw [List.all_cons, h1]; rfl, ?_, by simp⟩
+      show 10 * 0 + ((digitByte n).toNat - 48) = n
+      omega
+    · rename_i hn
+      obtain ⟨a, b, c⟩ := ih (n / 10) (by omega)
+      obtain ⟨h1, h2⟩ := isDigit_of (n % 10) (by omega)
+      refine ⟨by rw [List.all_append, a, List.all_cons, h1]; rfl, ?_, by simp⟩
+      rw [digitsVal_snoc, b, h2]
+      omega
+
+theorem takeWhile_digits (ds rest : Bytes) (h : ds.all isDigit = true) :
+    (ds ++ 93 :: rest).takeWhile isDigit = ds ∧ (ds ++ 93 :: rest).drop ds.length = 93 :: rest := by
+  induction ds with
+  | nil => simp [isDigit]
+  | cons d ds ih =>
+    simp only [List.all_cons, Bool.and_eq_true] at h
+    obtain ⟨i1, i2⟩ := ih h.2
+    simp [h.1, i1]
+
+/-- skipping the rest of a match -/
+theorem scanTags_skip : ∀ (a rest : Bytes), scanTags (a ++ rest) a.length = scanTags rest 0 := by
+  intro a
+  induction a with
+  | nil => intro rest; rfl
+  | cons x a ih => intro rest; simp only [List.cons_append, List.length_cons, scanTags]; exact ih rest
+
+/-- the rendered tag `[img-<ds>]` is matched by the runner's regexp, its number read back -/
+theorem matchTag_tag (ds rest : Bytes) (h : ds.all isDigit = true) (hne : ds ≠ []) :
+    matchTag (bImgDash ++ ds ++ [93] ++ rest) = some (digitsVal ds, 5 + ds.length + 1) := by
+  obtain ⟨t1, t2⟩ := takeWhile_digits ds rest h
+  have e : bImgDash ++ ds ++ [93] ++ rest = 91 :: 105 :: 109 :: 103 :: 45 :: (ds ++ 93 :: rest) := by
+    simp [bImgDash]
+  rw [e]
+  have hp : bImgDash.isPrefixOf (91 :: 105 :: 109 :: 103 :: 45 :: (ds ++ 93 :: rest)) = true := by
+    simp [bImgDash, List.isPrefixOf]
+  unfold matchTag
+  simp only [hp, if_true]
+  have hd : (91 :: 105 :: 109 :: 103 :: 45 :: (ds ++ 93 :: rest)).drop 5 = ds ++ 93 :: rest := rfl
+  rw [hd, t1]
+  have : ds.isEmpty = false := by cases ds <;> simp_all
+  simp only [this, Bool.false_eq_true, if_false, t2]
+
+theorem scanTags_tag (ds rest : Bytes) (h : ds.all isDigit = true) (hne : ds ≠ []) :
+    scanTags (bImgDash ++ ds ++ [93] ++ rest) 0 = digitsVal ds :: scanTags rest 0 := by
+  have hm := matchTag_tag ds rest h hne
+  have e : bImgDash ++ ds ++ [93] ++ rest = 91 :: ((105 :: 109 :: 103 :: 45 :: (ds ++ [93])) ++ rest) := by
+    simp [bImgDash]
+  rw [e] at hm ⊢
+  simp only [scanTags, hm]
+  have hl : 5 + ds.length + 1 - 1 = (105 :: 109 :: 103 :: 45 :: (ds ++ [93])).length := by
+    simp; omega
+  rw [hl, scanTags_skip]
+
+/-- a byte that is not `[` starts no match -/
+theorem matchTag_not_bracket (x : UInt8) (s : Bytes) (hx : x ≠ 91) : matchTag (x :: s) = none := by
+  unfold matchTag
+  have : bImgDash.isPrefixOf (x :: s) = false := by
+    simp [bImgDash, List.isPrefixOf]
+    intro h; exact absurd h.symm hx
+  simp [this]
+
+/-- text in which no `[` starts (a prefix of) `[img-`: it contains no `[img-`, and does not end in the
+    middle of one — the recorded assumption on user text, made precise -/
+def safeText : Bytes → Bool
+  | [] => true
+  | x :: s => (x != 91 || !((x :: s).take 5).isPrefixOf bImgDash) && safeText s
+
+theorem isPrefixOf_append_take (p t rest : Bytes) (h : p.isPrefixOf (t ++ rest) = true) :
+    (t.take p.length).isPrefixOf p = true := by
+  induction p generalizing t with
+  | nil => simp
+  | cons a p ih =>
+    cases t with
+    | nil => simp
+    | cons b t =>
+      simp only [List.cons_append, List.isPrefixOf, Bool.and_eq_true, beq_iff_eq] at h
+      simp only [List.length_cons, List.take_succ_cons, List.isPrefixOf, Bool.and_eq_true, beq_iff_eq]
+      exact ⟨h.1.symm, ih t h.2⟩
+
+theorem scanTags_safe : ∀ (b rest : Bytes), safeText b = true → scanTags (b ++ rest) 0 = scanTags rest 0 := by
+  intro b
+  induction b with
+  | nil => intro rest _; rfl
+  | cons x b ih =>
+    intro rest h
+    simp only [safeText, Bool.and_eq_true, Bool.or_eq_true, bne_iff_ne, ne_eq, Bool.not_eq_true'] at h
+    have hm : matchTag (x :: (b ++ rest)) = none := by
+      rcases h.1 with hx | hp
+      · exact matchTag_not_bracket x _ hx
+      · unfold matchTag
+        have : bImgDash.isPrefixOf (x :: (b ++ rest)) = false := by
+          cases hq : bImgDash.isPrefixOf (x :: (b ++ rest)) with
+          | false => rfl
+          | true =>
+            have := isPrefixOf_append_take bImgDash (x :: b) rest (by simpa using hq)
+            have hl : bImgDash.length = 5 := rfl
+            rw [hl] at this
+            rw [this] at hp; cases hp
+        simp [this]
+    simp only [List.cons_append, scanTags, hm]
+    exact ih rest h.2
+
+theorem scanTags_slot (rest : Bytes) : scanTags (bImg ++ rest) 0 = scanTags rest 0 :=
+  scanTags_safe bImg rest (by decide)
+
+theorem scanTags_mm (rest : Bytes) : scanTags (bMM ++ rest) 0 = scanTags rest 0 :=
+  scanTags_safe bMM rest (by decide)
+
+/-- every literal piece is `safeText` -/
+def cleanPieces (c : List Piece) : Bool :=
+  c.all (fun p => match p with | .lit b => safeText b | _ => true)
+
+theorem cleanPieces_strip (c : List Piece) : cleanPieces c = cleanPieces (strip c) := by
+  induction c with
+  | nil => rfl
+  | cons p c ih =>
+    cases p <;> simp_all [cleanPieces, strip, List.filter_cons]
+
+theorem natBytes_spec (k : Nat) :
+    (natBytes k).all isDigit = true ∧ digitsVal (natBytes k) = k ∧ natBytes k ≠ [] :=
+  decDigits_spec (k+1) k (by omega)
+
+
+/-- **The runner's regexp finds exactly the tags**: for contents whose literal text is `safeText`, the
+    `[img-N]` matches of the rendered bytes are the `tag` pieces, in order, each number read back exactly
+    (no tag is missed, none is invented, `strconv.Atoi` inverts `%d`) -/
+theorem scanTags_renderPieces : ∀ (c : List Piece), cleanPieces c = true →
+    scanTags (renderPieces c) 0 = tagsOf c := by
+  intro c
+  induction c with
+  | nil => intro _; rfl
+  | cons p c ih =>
+    intro h
+    have hc : cleanPieces c = true := by
+      simp only [cleanPieces, List.all_cons, Bool.and_eq_true] at h ⊢; exact h.2
+    have e : renderPieces (p :: c) = renderPiece p ++ renderPieces c := by simp [renderPieces]
+    rw [e]
+    cases p with
+    | lit b =>
+      have hb : safeText b = true := by
+        simp only [cleanPieces, List.all_cons, Bool.and_eq_true] at h; exact h.1
+      simp only [renderPiece, tagsOf, List.filterMap_cons]
+      rw [scanTags_safe b _ hb]; exact ih hc
+    | slot =>
+      simp only [renderPiece, tagsOf, List.filterMap_cons]
+      rw [scanTags_slot]; exact ih hc
+    | mm =>
+      simp only [renderPiece, tagsOf, List.filterMap_cons]
+      rw [scanTags_mm]; exact ih hc
+    | tag k =>
+      obtain ⟨d1, d2, d3⟩ := natBytes_spec k
+      simp only [renderPiece, tagsOf, List.filterMap_cons]
+      rw [scanTags_tag (natBytes k) _ d1 d3, d2]
+      congr 1
+      exact ih hc
+
 end OllamaVerif.Prompt
